@@ -124,6 +124,12 @@ struct Thrower {
         if (countdown >= 0 && countdown-- == 0) { throw 42; }
         reg(this);
     }
+    Thrower(Thrower&& o) : v{o.v}   // a move construction counts (and throws) like a copy construction
+    {
+        if (!is_live(&o)) { std::abort(); }
+        if (countdown >= 0 && countdown-- == 0) { throw 42; }
+        reg(this);
+    }
     auto operator=(Thrower const& o) -> Thrower&
     {
         if (!is_live(this) || !is_live(&o)) { std::abort(); }
@@ -133,11 +139,14 @@ struct Thrower {
     ~Thrower() { unreg(this); }
 };
 
-// copy construction / copy assignment whose element copy throws part-way: afterwards the target must hold exactly size() live
-// objects (so that its destructor, clear() or the next assignment never touches dead storage), the source is unchanged
+// copy / move construction and copy / move assignment whose element construction throws part-way: afterwards the target must
+// hold exactly size() live objects (so that its destructor, clear() or the next assignment never touches dead storage), the
+// source holds size() live objects; mode 0 copy construction, 1 copy assignment, 2 move construction, 3 move assignment
 template <typename Vec>
-static void throwing_scenario(Out& impl, bool assign, int target_elems, int source_elems, int countdown)
+static void throwing_scenario(Out& impl, int mode, int target_elems, int source_elems, int countdown)
 {
+    bool const assign = (mode == 1 || mode == 3);
+    bool const moving = (mode == 2 || mode == 3);
     Thrower::n_live    = 0;
     Thrower::countdown = -1;
     bool threw = false;
@@ -148,17 +157,19 @@ static void throwing_scenario(Out& impl, bool assign, int target_elems, int sour
             Vec dst{};
             for (int i = 0; i < target_elems; ++i) { if constexpr (requires { dst.try_emplace_back(1); }) { (void)dst.try_emplace_back(100 + i); } else { (void)dst.emplace_back(100 + i); } }
             Thrower::countdown = countdown;
-            try { dst = src; } catch (int) { threw = true; }
+            try { if (moving) { dst = etl::move(src); } else { dst = src; } } catch (int) { threw = true; }
             Thrower::countdown = -1;
             int live_in_dst = 0;
             for (auto const& x : dst) { live_in_dst += Thrower::is_live(&x) ? 1 : 0; }
-            impl.tok("ok").b(threw).b(live_in_dst == static_cast<int>(dst.size())).b(Thrower::n_live == static_cast<int>(dst.size() + src.size()));
+            int live_in_src = 0;
+            for (auto const& x : src) { live_in_src += Thrower::is_live(&x) ? 1 : 0; }
+            impl.tok("ok").b(threw).b(live_in_dst == static_cast<int>(dst.size()) && live_in_src == static_cast<int>(src.size())).b(Thrower::n_live == static_cast<int>(dst.size() + src.size()));
             dst.clear();
             dst = src;   // the object is still usable
         } else {
             Thrower::countdown = countdown;
             try {
-                Vec dst{src};
+                Vec dst{moving ? Vec{etl::move(src)} : Vec{src}};   // guaranteed elision: exactly one construction
                 Thrower::countdown = -1;
                 impl.tok("ok").b(false).b(true).b(Thrower::n_live == static_cast<int>(dst.size() + src.size()));
             } catch (int) {
@@ -478,13 +489,26 @@ constexpr auto views(int seed) -> long long
     auto last = sp.last(12);                 // the whole span
     auto none = sp.subspan(12);              // empty, at the end
     auto fst  = sp.first<3>();
+    // static extent: the templated sub-views end with the array; iterating them inside a constant expression reads only arr
+    etl::span<int, 12> st{arr};
+    auto tail = st.subspan<9>();             // span<int, 3> over arr[9..11]
+    auto mid  = st.subspan<2, 3>();
+    auto l4   = st.last<4>();
+    auto f12  = st.first<12>();
+    auto zero = st.subspan<12>();            // span<int, 0> at the end
+    static_assert(decltype(tail)::extent == 3 && decltype(mid)::extent == 3 && decltype(l4)::extent == 4 && decltype(zero)::extent == 0);
+    long long st_acc = static_cast<long long>(tail.size() + mid.size() + l4.size() + f12.size() + zero.size());
+    for (auto x : tail) { st_acc += x; }
+    for (auto x : l4) { st_acc += x; }
+    for (auto x : zero) { st_acc += x; }
+    st_acc += tail.back() + mid.front() + f12.back() + l4[3];
     etl::mdspan<int, etl::extents<int, 3, 4>> m{arr};
     etl::mdspan<int, etl::dextents<int, 2>, etl::layout_left> ml{arr, 4, 3};
     long long acc = static_cast<long long>(sub.size() + last.size() + none.size() + fst.size());
     acc += m(2, 3) + ml(3, 2) + m(seed % 3, seed % 4);       // the last element of the buffer through both layouts
     acc += static_cast<long long>(m.size() + m.extent(1) + m.mapping().required_span_size());
     acc += sp.front() + sp.back() + sp[11];
-    return acc;
+    return acc + st_acc;
 }
 
 constexpr auto wrap(int seed) -> long long
@@ -777,6 +801,8 @@ bool vh::run_case(std::string const& op, Toks& in, Out& impl, Out& ref)
 {
     // the alignment leg (ops align / asdef) lives in align.cpp (variants al, alo2, alsan)
     if (op == "align" || op == "asdef") { impl.tok("skip"); return true; }
+    // the sub-view / raw-storage leg (ops sspan / uninit) lives in sub.cpp (variants sb, sbo2, sbsan)
+    if (op == "sspan" || op == "uninit") { impl.tok("skip"); return true; }
     if (op == "san_canary") {
         // the sanitizer build must abort on a deliberate misaligned load / constructor call / heap overflow (`crash 6`):
         // clean sanitizer runs of the batteries mean something only then; every other build skips the case
@@ -857,9 +883,10 @@ bool vh::run_case(std::string const& op, Toks& in, Out& impl, Out& ref)
         return true;
     }
     if (op == "throwing") {
-        // throwing <sv|iv> <assign 0|1> <target elems> <source elems> <countdown>
+        // throwing <sv|iv> <mode 0 copy-construct | 1 copy-assign | 2 move-construct | 3 move-assign> <target elems> <source elems> <countdown>
         auto kind   = in.str();
-        auto assign = in.num() != 0;
+        auto assign = static_cast<int>(in.num());
+        if (assign < 0 || assign > 3) { return false; }
         auto te     = static_cast<int>(in.num());
         auto se     = static_cast<int>(in.num());
         auto cd     = static_cast<int>(in.num());
